@@ -189,3 +189,34 @@ for mark in '{[':
     c = contract('bardolph/parser/parse.py', 'Parser._at_rvalue', serves=['C16', 'C06'], uses=('parser',), name="Parser._at_rvalue[MARK '%s']" % mark)
     c.setup(lambda b, case, mark=mark: {'self': PL.parser(b, first_token=PL.concrete_token(b.I, 'MARK', mark)), 'include_reg': b.sym('bool', 'include_reg')})
     c.ensures('opens-a-value', 'result is True')
+
+
+# ---- braces round a single variable or register: the compiler emits PUSH v; POP d instead of MOVE v d.
+#      Both leave the same value in the destination and the operand stack as it was.
+for src_kind in ('variable', 'register'):
+    c = contract('bardolph/vm/machine.py', 'braces_or_not', serves=['C16', 'C02'], name='lemma:PUSH v; POP d == MOVE v d [%s]' % src_kind, src='''
+def braces_or_not(m, src, d1, d2):
+    from bardolph.vm.instruction import Instruction
+    depth = len(m._vm_math._eval_stack._stack)
+    m._program = [Instruction(OpCode.PUSH, src), Instruction(OpCode.POP, d1), Instruction(OpCode.MOVE, src, d2)]
+    m._reg.pc = 0
+    m._push()
+    m._reg.pc = 1
+    m._pop()
+    m._reg.pc = 2
+    m._move()
+    return (m._call_stack.get_variable(d1), m._call_stack.get_variable(d2), len(m._vm_math._eval_stack._stack) - depth)
+''')
+    def _setup(b, case, src_kind=src_kind):
+        from . import lib
+        m = lib.machine(b, 'LOGICAL', lib.light_set_with(b, {}))
+        v = b.sym('real', 'value')
+        if src_kind == 'variable':
+            m.attrs['_call_stack'].attrs['_top'].attrs['vars'].d['v'] = v
+            src = 'v'
+        else:
+            m.attrs['_reg'].attrs['hue'] = v
+            src = b.enum('bardolph.vm.vm_codes', 'Register', 'HUE')
+        return {'m': m, 'src': src, 'd1': 'with_braces', 'd2': 'without', '_v': v}
+    c.setup(_setup)
+    c.ensures('same-value-either-way', 'result[0] == _v and result[1] == _v and result[2] == 0')
